@@ -87,6 +87,8 @@ def run(ctx):
     for i in range(8 if q else 60):
         lo_, hi_ = rng.choice([(0.05, 0.04), (0.045, 0.04), (0.06, 0.05), (0.03, 0.025), (0.1, 0.09)])
         p = dict(k_nn=3, sampling_times=rng.choice([10, 20]))
+        if i % 2 == 1:      # the pair straddles 1 / sampling_times (where "one re-assignment in the tail" begins): nothing about the critical value may change kind there
+            lo_, hi_ = 1.04 / p["sampling_times"], 0.96 / p["sampling_times"]
         items = P.gen_items("NNDVI", rng, rng.randint(8, 12))
         ts.append(P.two_runs("NNDVI", dict(p, alpha=hi_), dict(p, alpha=lo_), items, rng.randrange(10 ** 6), "FirstDriftNotLater", extra={"par": "alpha"}))
     # streaming kdq-tree: the divergence hovers between the two critical values (light contamination of the first test
